@@ -70,6 +70,7 @@ class Interp:
         self.bodies = {}
         self.delims = set()
         self.dropped = []  # (kind, binding) pieces never consumed
+        self.lossy = []  # (kind, method, pattern) operations that discard an unchecked number of delimiters
         for k in KINDS + ["SchemaCoordinate"]:
             fn = prog.fn(r"^<apollo_compiler::coordinate::%s as std::str::FromStr>::from_str$" % k)
             self.bodies[k] = (fn, prog.hir_body(fn))
@@ -195,7 +196,24 @@ class Interp:
                 if v[0] != "str":
                     raise Undecided("from_str of a non-string")
                 return ("pending_from_str", v[1])
+            if cp and cp.startswith("apollo_compiler::coordinate::") and c[1] in ("Fn", "AssocFn"):
+                # a local helper: interpret its body on the same symbolic values
+                bodies = [b for b in self.prog.hir("apollo_compiler").values() if b["name"] == cp]
+                if len(bodies) != 1:
+                    raise Undecided("helper %s not found" % cp)
+                hb = bodies[0]
+                args = [self.expr(kind, a, env, used) for a in e["args"]]
+                env2 = {}
+                for p, a in zip(hb["params"], args):
+                    if not self.bind_pat(kind, p, a, env2, used):
+                        raise Undecided("helper parameter pattern")
+                try:
+                    return self.block(kind, hb["body"], env2, used)
+                except _Return as r:
+                    return r.value
             raise Undecided("from_str of %s: call to %s" % (kind, cp))
+        if k == "tup":
+            return ("tuple", [self.expr(kind, x, env, used) for x in e["es"]])
         if k == "mcall":
             cal = e.get("callee") or ""
             recv = self.expr(kind, e["recv"], env, used)
@@ -220,6 +238,48 @@ class Interp:
                         used[r0[2]] = (nm, n - 1)
                     return ("bool", starts)
                 return ("some", ("str", norm([("lit", t[0][1][1:])] + t[1:]))) if starts else ("none",)
+            if re.search(r"str>::(strip_suffix|trim_end_matches|trim_start_matches|ends_with|trim_matches)$", cal):
+                a = e["args"][0]
+                if not (a.get("k") == "lit" and a.get("t") in ("char", "str")):
+                    raise Undecided("pattern argument of %s is not a literal" % cal)
+                pat = chr(a["v"]) if a["t"] == "char" else a["v"]
+                for ch in pat:
+                    self.delims.add(ch)
+                if recv[0] != "str" or not pat:
+                    raise Undecided("%s on a non-string" % cal)
+                t = norm(recv[1])
+
+                def ends(tt):
+                    return bool(tt) and tt[-1][0] == "lit" and tt[-1][1].endswith(pat)
+
+                def starts(tt):
+                    return bool(tt) and tt[0][0] == "lit" and tt[0][1].startswith(pat)
+
+                def cut_end(tt):
+                    return norm(tt[:-1] + [("lit", tt[-1][1][:-len(pat)])])
+
+                def cut_start(tt):
+                    return norm([("lit", tt[0][1][len(pat):])] + tt[1:])
+
+                m = cal.split("::")[-1]
+                if m == "ends_with":
+                    r0 = e["recv"].get("res")
+                    if r0 and r0[0] == "local" and r0[2] in used:
+                        nm, n = used[r0[2]]
+                        used[r0[2]] = (nm, n - 1)
+                    return ("bool", ends(t))
+                if m == "strip_suffix":
+                    return ("some", ("str", cut_end(t))) if ends(t) else ("none",)
+                # trim_* removes zero or more occurrences: the text is accepted with the delimiter
+                # missing or repeated, which no later check can recover
+                self.lossy.append((kind, m, pat))
+                if m in ("trim_end_matches", "trim_matches"):
+                    while ends(t):
+                        t = cut_end(t)
+                if m in ("trim_start_matches", "trim_matches"):
+                    while starts(t):
+                        t = cut_start(t)
+                return ("str", t)
             if cal.endswith("Result::<T, E>::map"):
                 ctor = e["args"][0]
                 r = ctor.get("res")
@@ -246,6 +306,14 @@ class Interp:
                 return v[1]
             if v[0] == "res_err":
                 raise _Return(("err", v[1]))
+            if v[0] == "ok":
+                return v[1]
+            if v[0] == "err":
+                raise _Return(("err", v[1]))
+            if v[0] == "some":
+                return v[1]
+            if v[0] == "none":
+                raise _Return(("none",))
             raise Undecided("`?` on %s" % v[0])
         if k == "field":
             v = self.expr(kind, e["e"], env, used)
@@ -406,6 +474,13 @@ def rule_grammar(prog, rep):
         for d in sorted(it.delims | set(".(:)@")):
             misses.append(("trailing `%s`" % d, norm(tpl + [("lit", d)])))
             misses.append(("leading `%s`" % d, norm([("lit", d)] + tpl)))
+        for i, x in enumerate(tpl):
+            if x[0] == "lit":
+                misses.append(("`%s` missing" % x[1], norm(tpl[:i] + tpl[i + 1:])))
+                misses.append(("`%s` repeated" % x[1], norm(tpl[:i] + [x, x] + tpl[i + 1:])))
+                for j in range(len(x[1])):
+                    if len(x[1]) > 1:
+                        misses.append(("`%s` without its `%s`" % (x[1], x[1][j]), norm(tpl[:i] + [("lit", x[1][:j] + x[1][j + 1:])] + tpl[i + 1:])))
         if tpl[-1][0] == "lit" and len(tpl[-1][1]) > 1:
             misses.append(("truncated suffix", norm(tpl[:-1] + [("lit", tpl[-1][1][:-1])])))
             misses.append(("junk before `)`", norm(tpl[:-1] + [("lit", tpl[-1][1][:-1]), ("hole", "junk"), ("lit", tpl[-1][1][-1])])))
@@ -441,11 +516,14 @@ def rule_grammar(prog, rep):
             rep.finding("C23.DISPATCH", disp.name, "variant:" + VARIANT[k], "SchemaCoordinate::from_str on the printed form of a %s gives %s" % (k, why), disp.loc())
     # every piece consumed exactly once
     rep.floor("C23.CONSUME", 1)
+    for kind, m, pat in sorted(set(it.lossy)):
+        fn = it.bodies[kind][0]
+        rep.finding("C23.CONSUME", fn.name, "lossy:%s:%s" % (m, pat), "%s::from_str removes `%s` with %s, which accepts the text with the delimiter missing or repeated" % (kind, pat, m), fn.loc())
     if it.dropped:
         for kind, nm in sorted(set(it.dropped)):
             fn = it.bodies[kind][0]
             rep.finding("C23.CONSUME", fn.name, "dropped:" + nm, "%s::from_str never checks the piece `%s` it split off: arbitrary text is accepted there" % (kind, nm), fn.loc())
-    else:
+    elif not it.lossy:
         rep.instance("C23.CONSUME", "every piece produced by split_once/strip_prefix is consumed by a Name check, a sub-parser or a literal comparison")
     return it
 
